@@ -107,6 +107,11 @@ pub fn rel_midpoints(m: f64) -> Vec<f64> {
         return vec![];
     }
     let mut v = vec![(1.0 / m + 1.0) / 2.0, (1.0 + m) / 2.0];
+    // changes of less than a per mille (a rate controller tracking clock drift)
+    if m >= 1.001 {
+        v.push(1.0 - 9.0e-4);
+        v.push(1.0 + 9.0e-4);
+    }
     v.retain(|x| !rel_values(m).iter().any(|y| y.to_bits() == x.to_bits()));
     v
 }
